@@ -570,3 +570,56 @@ Proof.
   apply distinct_spans_dec. intros n Hn. vm_compute in Hn.
   destruct Hn as [<-|[<-|[<-|[<-|[]]]]]; vm_compute; repeat constructor; simpl; intuition discriminate.
 Qed.
+
+(** ---------- several files ---------- *)
+Lemma fold_files_inv2 N files : forall p st,
+  Inv2 p st -> distinct_spans (assign 0 (p ++ data_lines (concat files))) ->
+  Inv2 (p ++ data_lines (concat files)) (fold_left (file_step true true N) files st).
+Proof.
+  induction files as [|f files IH]; intros p st Hinv Hds; cbn [concat fold_left data_lines] in *.
+  - rewrite app_nil_r. exact Hinv.
+  - rewrite data_lines_app, app_assoc. rewrite data_lines_app, app_assoc in Hds.
+    apply IH; [|exact Hds]. unfold file_step.
+    rewrite <- (concat_blocks N f) at 1. apply fold_inv2; [exact Hinv|].
+    rewrite concat_blocks. rewrite assign_app in Hds. eapply distinct_prefix. exact Hds.
+Qed.
+
+(** with the counter carried across files, loading files f1..fk with any block
+    size gives the table of their concatenation *)
+Lemma load_files_table N files :
+  distinct_spans (assign 0 (data_lines (concat files))) ->
+  st_db (load_files true true N files) = table_of (assign 0 (data_lines (concat files))).
+Proof.
+  intros H. unfold load_files.
+  assert (Hinv : Inv2 ([] ++ data_lines (concat files)) (fold_left (file_step true true N) files st_init)).
+  { apply fold_files_inv2; [|exact H]. unfold Inv2, st_init, table_of; cbn. auto. }
+  destruct Hinv as [_ [_ Hdb]]. exact Hdb.
+Qed.
+
+Lemma load_files_independent N N' files files' :
+  concat files = concat files' ->
+  distinct_spans (assign 0 (data_lines (concat files))) ->
+  st_db (load_files true true N files) = st_db (load_files true true N' files').
+Proof.
+  intros E H. rewrite (load_files_table N files H). rewrite E in H. rewrite (load_files_table N' files' H), E. reflexivity.
+Qed.
+
+Lemma load_files_is_one_block N files :
+  distinct_spans (assign 0 (data_lines (concat files))) ->
+  st_db (load_files true true N files) = st_db (load true 0 (concat files)).
+Proof. intros H. rewrite load_files_table, load_fixed_table by exact H. reflexivity. Qed.
+
+(** the counter restarting per file: the ID-less record of the second file is
+    absorbed by the unrelated ID-less record of the first *)
+Definition two_files : list (list (option gline)) :=
+  [[mkgl None [115; 49] [103] [43] [] 1 10]; [mkgl None [115; 50] [101] [45] [] 101 110]].
+
+Lemma counter_per_file_merges_unrelated_records :
+  length (st_db (load_files true false 0 two_files)) = 1%nat /\
+  length (st_db (load_files true true 0 two_files)) = 2%nat /\
+  distinct_spans (assign 0 (data_lines (concat two_files))).
+Proof.
+  split; [vm_compute; reflexivity|]. split; [vm_compute; reflexivity|].
+  apply distinct_spans_dec. intros n Hn. vm_compute in Hn.
+  destruct Hn as [<-|[<-|[]]]; vm_compute; repeat constructor; simpl; intuition discriminate.
+Qed.
